@@ -11,6 +11,8 @@ git -C /repo worktree remove --force "/tmp/r$N" 2>/dev/null || true
 rm -rf "/tmp/r$N"
 git -C /repo worktree add --detach "/tmp/r$N" HEAD >/dev/null
 cp /repo/Cargo.lock "/tmp/r$N/Cargo.lock"
-cp -a /verif "/tmp/w$N"
+mkdir -p "/tmp/w$N"
+rsync -a --exclude "/work/" --exclude "/replays/" /verif/ "/tmp/w$N/" || true
+mkdir -p "/tmp/w$N/work" "/tmp/w$N/replays"
 sed -i "s#path = \"/repo/#path = \"/tmp/r$N/#" "/tmp/w$N/harness/Cargo.toml"
 echo "scratch verif: /tmp/w$N   scratch repo: /tmp/r$N"
